@@ -141,3 +141,34 @@ package m
 //@   option trusted
 //@   modifies nothing
 //@   ensures signature: err == nil ==> len(sig) == 64 && fresh(base(sig))
+
+// ---- routing table: ordering and equality of routes (C11) ---------------------------------------------
+// totalsOK(e): hop count and hop total agree, as CalculateTotals leaves them (search probes have no hops
+// and totals 0 or 255).
+//@ pred totalsOK(e *RoutingTableEntry) = len(e.Path.Hops) <= 255 && (len(e.Path.Hops) >= 2 ==> int(e.Path.TotalHops) == len(e.Path.Hops) - 1) && (len(e.Path.Hops) <= 1 ==> e.Path.TotalHops <= 1 || e.Path.TotalHops == 255)
+
+// Best-first order: destination, then fewest hops, then lowest delay.
+//@ func RoutingTable.stdSort
+//@   option nilrecv
+//@   requires a != nil && b != nil && totalsOK(a) && totalsOK(b)
+//@   modifies nothing
+//@   ensures by-destination [C11]: a.DstIP != b.DstIP ==> result != 0 && (result < 0) == a.DstIP.Less(b.DstIP)
+//@   ensures then-fewest-hops [C11]: a.DstIP == b.DstIP && a.Path.TotalHops != b.Path.TotalHops ==> result != 0 && (result < 0) == (a.Path.TotalHops < b.Path.TotalHops)
+//@   ensures then-lowest-delay [C11]: a.DstIP == b.DstIP && a.Path.TotalHops == b.Path.TotalHops && a.Path.TotalDelay != b.Path.TotalDelay ==> result != 0 && (result < 0) == (a.Path.TotalDelay < b.Path.TotalDelay)
+//@   invariant 1 index: 1 <= i
+
+// Two routes are "the same route" only for the same destination and either both direct-peer routes or equal
+// hop counts and relays: a gossip route never counts as the peer route.
+//@ func RoutingTableEntry.RouteEquals
+//@   requires b != nil
+//@   modifies nothing
+//@   ensures same-destination [C11]: result ==> a.DstIP == b.DstIP
+//@   ensures peer-route-only-equals-peer-route [C11]: result ==> (a.Source == RouteSourcePeer && b.Source == RouteSourcePeer) || (a.Path.TotalHops == b.Path.TotalHops && len(a.Path.Hops) == len(b.Path.Hops))
+//@   invariant 1 index: 1 <= i && len(a.Path.Hops) == len(b.Path.Hops)
+
+//@ func SwitchPath.CalculateTotals
+//@   requires sp != nil
+//@   modifies sp.TotalHops, sp.TotalDelay
+//@   ensures hops-total [C11]: (len(sp.Hops) >= 2 && len(sp.Hops) <= 255 ==> int(sp.TotalHops) == len(sp.Hops) - 1) && (len(sp.Hops) <= 1 ==> sp.TotalHops == 1) && (len(sp.Hops) > 255 ==> sp.TotalHops == 254)
+//@   ensures spare-for-probes [C11]: sp.TotalHops >= 1 && sp.TotalHops <= 254
+//@   invariant 1 sum: 0 <= delay && delay <= 65535 * (rangeindex + 1)
